@@ -38,6 +38,15 @@ type Case struct {
 	Cfg   sim.Config `json:"cfg"`
 	Funds string     `json:"funds"` // initial balance of every hub user in every denom ("" = none)
 	Ops   []Op       `json:"ops"`
+	// Rot: delegate-key rotations (MsgDelegateKeys with a fresh orchestrator and external key) applied in one block after
+	// the history; only the checks that look at the registry afterwards (C15) execute them.
+	Rot []Rot `json:"rot,omitempty"`
+}
+
+type Rot struct {
+	Val   int `json:"val"`
+	Chain int `json:"chain"` // 0 ethereum, 1 bsc, 2 minter
+	Orch  int `json:"orch"`  // which spare orchestrator account (their byte order relative to the old one varies)
 }
 
 func (o Op) String() string {
@@ -59,6 +68,7 @@ type GenOpts struct {
 	EthTimeout     []uint64 // choices for TargetEthTxTimeout (ms)
 	NoFunds        bool
 	Holders        bool
+	Rotations      bool // draw Case.Rot
 }
 
 var ethIds = []string{
@@ -189,7 +199,7 @@ func genFee(t *rapid.T, label string) string {
 
 var defaultWeights = map[string]int{
 	"send": 30, "cancel": 7, "reqbatch": 7, "deposit": 4, "transfer": 6, "exec": 4,
-	"tick": 2, "hb": 1, "relay": 5, "block": 24, "burst": 0, "xexec": 14, "xtick": 7, "send2": 4, "hostile": 0, "oprice": 0, "oholders": 0, "sign": 0, "byz": 0,
+	"tick": 2, "hb": 1, "relay": 5, "block": 24, "burst": 0, "xexec": 14, "xtick": 7, "send2": 4, "hostile": 0, "oprice": 0, "oholders": 0, "sign": 0, "byz": 0, "xround": 0,
 }
 
 // GenOps draws the operation list for a configuration.
@@ -207,7 +217,7 @@ func GenOps(t *rapid.T, cfg sim.Config, o GenOpts) []Op {
 	if o.Bursts && w["burst"] == 0 {
 		w["burst"] = 2
 	}
-	kinds := []string{"send", "cancel", "reqbatch", "deposit", "transfer", "exec", "tick", "hb", "relay", "block", "burst", "xexec", "xtick", "send2", "hostile", "oprice", "oholders", "sign", "byz"}
+	kinds := []string{"send", "cancel", "reqbatch", "deposit", "transfer", "exec", "tick", "hb", "relay", "block", "burst", "xexec", "xtick", "send2", "hostile", "oprice", "oholders", "sign", "byz", "xround"}
 	total := 0
 	for _, k := range kinds {
 		total += w[k]
@@ -313,6 +323,17 @@ func GenOps(t *rapid.T, cfg sim.Config, o GenOpts) []Op {
 			op.R = rapid.IntRange(0, 7).Draw(t, "pick")
 			op.A = genFee(t, "feepaid")
 			op.T = rapid.SampledFrom([]int64{1, 5, 5, 21}).Draw(t, "dt")
+		case "xround":
+			// macro: N accounts of chain C send to another external chain, batch, execution, observation
+			op.C = chainGen.Draw(t, "c")
+			op.C2 = rapid.IntRange(0, 1).Draw(t, "c2")
+			op.D = denomGen.Draw(t, "d")
+			op.N = rapid.IntRange(1, 4).Draw(t, "n")
+			op.A = genAmount(t, "amt", o.BigAmounts)
+			op.F = genFee(t, "fee")
+			op.R = rapid.IntRange(0, 3).Draw(t, "r")
+			op.U = rapid.IntRange(0, 2).Draw(t, "paid")
+			op.T = rapid.SampledFrom([]int64{1, 5, 5, 21}).Draw(t, "dt")
 		case "xtick":
 			// macro: the external clock jumps, a heartbeat event reports it, two blocks pass
 			op.C = chainGen.Draw(t, "c")
@@ -362,6 +383,11 @@ func GenCase(o GenOpts) func(t *rapid.T) interface{} {
 			c.Ops = Prelude()
 		}
 		c.Ops = append(c.Ops, GenOps(t, cfg, o)...)
+		if o.Rotations && rapid.IntRange(0, 9).Draw(t, "rotate") < 4 {
+			for n := rapid.IntRange(1, 3).Draw(t, "nrot"); n > 0; n-- {
+				c.Rot = append(c.Rot, Rot{Val: rapid.IntRange(0, len(cfg.Vals)-1).Draw(t, "rotval"), Chain: rapid.IntRange(0, 2).Draw(t, "rotchain"), Orch: rapid.IntRange(0, 7).Draw(t, "rotorch")})
+			}
+		}
 		return c
 	}
 }
